@@ -59,6 +59,7 @@ theorem finv_step {s s' : State} {l : Label} (B : Basic s) (I : FInv s) (h : nex
         refine ⟨?_, ?_, ?_, ?_, ?_, ?_, ?_, ?_⟩ <;> simp only [State.setThread, State.emit, phase_closed]
         · intro r' hr' hpc'
           obtain ⟨r, hr, rfl⟩ := h0 r' hr'
+          have hr1 := (hrun 0 r hr).2 rfl
           have hf := f1 r hr
           rcases claim_pc (hval 0 r hr) with e | ⟨ea, eb, _, e1, e2⟩
           · rw [e] at hpc'; (try rw [e]); exact hf hpc'
@@ -68,6 +69,7 @@ theorem finv_step {s s' : State} {l : Label} (B : Basic s) (I : FInv s) (h : nex
               | (apply hf; omega)
         · intro r' hr' hpc'
           obtain ⟨r, hr, rfl⟩ := h0 r' hr'
+          have hr1 := (hrun 0 r hr).2 rfl
           have hf := f2 r hr
           rcases claim_pc (hval 0 r hr) with e | ⟨ea, eb, _, e1, e2⟩
           · rw [e] at hpc'; (try rw [e]); exact hf hpc'
@@ -77,6 +79,7 @@ theorem finv_step {s s' : State} {l : Label} (B : Basic s) (I : FInv s) (h : nex
               | (apply hf; omega)
         · intro r' hr' hpc'
           obtain ⟨r, hr, rfl⟩ := h0 r' hr'
+          have hr1 := (hrun 0 r hr).2 rfl
           have hf := f3 r hr
           rcases claim_pc (hval 0 r hr) with e | ⟨ea, eb, _, e1, e2⟩
           · rw [e] at hpc'; (try rw [e]); exact hf hpc'
